@@ -148,6 +148,8 @@ pub fn run_scenario(ctx: &mut Ctx, srv: &Server, sc: &Scenario, input: &Value) {
     let mut tainted = false;
     let mut sig = Vec::new();
     let mut prev_post: Option<Option<LocalObs>> = Some(None);
+    // The local copy stems from the history before a restore.
+    let mut local_from_old = true;
 
     for (i, step) in sc.steps.iter().enumerate() {
         now += step.adv.max(1);
@@ -206,6 +208,27 @@ pub fn run_scenario(ctx: &mut Ctx, srv: &Server, sc: &Scenario, input: &Value) {
 
         // ---- the property oracle on the real observations ----
         let mut violated = false;
+        // A restored server (same session and serials, other content) can
+        // only be noticed if the notification re-lists a delta the local
+        // state remembers, with another hash (or changes the session). If it
+        // does not, no client could tell: the case is outside the property.
+        if sc.history2.is_some() && i >= sc.fork_at && local_from_old {
+            let detectable = match &obs.pre {
+                None => true,
+                Some(pre) => {
+                    log.first().map(|r| r.status == 200).unwrap_or(false)
+                    && step.notify.kind == NotifyKind::Ok
+                    && (Some(step.notify.session) != pre.session
+                        || step.notify.deltas.iter().zip(served.delta_hashes.iter()).any(|(e, h)| {
+                            pre.delta_state.get(&e.serial).map(|known| known != h).unwrap_or(false)
+                        }))
+                }
+            };
+            if !detectable {
+                ctx.count("restore-undetectable-skipped");
+                break
+            }
+        }
         let modified = obs.pre.as_ref().map(|p| &p.objs) != obs.post.as_ref().map(|p| &p.objs);
         if obs.outcome == Outcome::Updated {
             let cls = |base: &str| -> String {
@@ -228,7 +251,7 @@ pub fn run_scenario(ctx: &mut Ctx, srv: &Server, sc: &Scenario, input: &Value) {
                         (Some(step.notify.session), step.notify.serial)
                     };
                     let state_ok = post.session == ns && post.serial == nser;
-                    let truth = ns.and_then(|s| sc.snapshot_at(s, nser));
+                    let truth = ns.and_then(|s| sc.snapshot_at(i, s, nser));
                     let want: Option<BTreeMap<String, Vec<u8>>> = truth.map(|v| {
                         v.objs.iter().map(|(u, c)| (object_uri(*u), content_bytes(*c))).collect()
                     });
@@ -279,6 +302,7 @@ pub fn run_scenario(ctx: &mut Ctx, srv: &Server, sc: &Scenario, input: &Value) {
                     if state_ok && want.as_ref() == Some(&post.objs) {
                         // A successful update to genuine content clears the taint.
                         tainted = false;
+                        if i >= sc.fork_at { local_from_old = false; }
                     }
                 }
             }
@@ -316,7 +340,9 @@ pub fn run_c25(ctx: &mut Ctx) {
         entries, oversized list, file status/garbage/malformed/cut/torn, dropped/extra/changed elements, wrong \
         preconditions, wrong meta); plus the exhaustive single-fault catalogue at steps 1 and 2 of a fixed 5-version \
         history and (delta-file fault x snapshot fault) pairs; the server going backwards within a session (genuine older \
-        views with long/short/empty lists, changed hashes, lowered serial only) and faulty views of an unchanged server; distinct = distinct (outcome, path, faults) sequences".into();
+        views with long/short/empty lists, changed hashes, lowered serial only) and faulty views of an unchanged server; \
+        a restored server (same session and serials, a remembered delta re-issued with another hash, delta list extended \
+        downwards by 1/2/many older serials, serial unchanged or advanced); distinct = distinct (outcome, path, faults) sequences".into();
     let srv = Server::start();
     let mut inputs: Vec<Value> = Vec::new();
     if let Some(replay) = ctx.replay_inputs() {
@@ -331,6 +357,7 @@ pub fn run_c25(ctx: &mut Ctx) {
         for sc in enumerate_single(&mut rng) { inputs.push(sc.to_json()); }
         for sc in enumerate_rollback(&mut rng) { inputs.push(sc.to_json()); }
         for sc in enumerate_unchanged(&mut rng) { inputs.push(sc.to_json()); }
+        for sc in enumerate_restore() { inputs.push(sc.to_json()); }
         for sc in enumerate_pairs(&mut rng, !ctx.quick() || ctx.search) { inputs.push(sc.to_json()); }
         let n = ctx.budget(150, 2000);
         for _ in 0..n {
